@@ -146,3 +146,37 @@ def project_kinematics(exprs: dict) -> dict:
         else:
             raise ProjectionError(f"unknown kinematic variable {sym}")
     return {"angles": angles, "masses": masses}
+
+
+# ---- the documented meaning, computed from the tree alone (python replica of Topo!DocAngle) ---------
+def doc_angles(tree) -> dict:
+    """{name groups (tuple of tuples): (target ids, frame chain innermost first)} per Topo.tla."""
+    sets = [tuple(s) for s in tree]
+    root = max(sets, key=len)
+
+    def kids(S):
+        sub = [c for c in sets if set(c) < set(S)]
+        return sorted(c for c in sub if not any(set(c) < set(d) for d in sub))
+
+    def parent(S):
+        return min((p for p in sets if set(S) < set(p)), key=len)
+
+    def chain(S):
+        out = []
+        cur = S
+        while cur != root:
+            cur = parent(cur)
+            if cur != root:
+                out.append(cur)
+        return out
+
+    out = {}
+    for S in sets:
+        if len(S) < 2:
+            continue
+        h, o = kids(S)  # sorted tuples: helicity child first (lexicographically smaller)
+        name = (h, *chain(h))
+        target = o if len(o) > 1 else h
+        frame = [] if S == root else [S, *chain(S)]
+        out[name] = (list(target), [list(f) for f in frame])
+    return out
